@@ -517,7 +517,10 @@ impl<T: Shape + 'static> Runner<T> {
 
         // ---- one value: compositionality (C08 a, b) and the allocator (C09)
         let before = crate::alloc::live();
-        let value = T::build(&mut u, 0);
+        // black_box: in optimised builds the compiler may otherwise elide a
+        // heap allocation it can see through (Box<u8>), and the allocator
+        // would not be the ground truth any more
+        let value = std::hint::black_box(T::build(&mut u, 0));
         let held = crate::alloc::live() - before;
         let heap = value.heap_size();
         let vs = value.value_size();
